@@ -25,6 +25,7 @@ func init() {
 			ruleC03R8(r)
 			ruleGoroutinesOutliveRequestCtx(r, "R10", "/iscp", "/wire")
 			ruleC03R11(r)
+			ruleCoupledFields(r, "R13", "/iscp", "/wire", "/transport/reconnect", "/transport/multi", "/transport/quic", "/transport/webtransport", "/transport/websocket")
 			le03 := newLockEngine(r.P)
 			ruleNoReentrantLock(r, le03, "R12", "/iscp")
 			ruleLockPairingFor(r, le03, "R9", "the read path never wedges on the stream mutex: every function of iscp.Downstream that takes a lock releases it on every path (an unknown alias reported as an error must not leave the mutex held)", func(fn *ssa.Function) bool {
@@ -80,6 +81,31 @@ func ruleC03R1(r *Run) {
 								if len(rs) == 2 && isNilConst(rs[0]) && !isNilConst(rs[1]) {
 									found = true
 								}
+							}
+						}
+						if !found {
+							// a test inside a lookup helper (it fills a cache on the found edge, say) whose not-found
+							// edge hands the very flag back: the caller's test of that result, which testsOf lists as
+							// well, is the one that decides
+							found = true
+							any := false
+							reachesWithoutFromBlock(ifs.Block().Succs[1], func(y ssa.Instruction) bool {
+								if ret, isRet := y.(*ssa.Return); isRet {
+									any = true
+									hands := false
+									for _, rv := range retResults(ret) {
+										if rv == ifs.Cond {
+											hands = true
+										}
+									}
+									if !hands {
+										found = false
+									}
+								}
+								return false
+							}, nil)
+							if !any || ifs.Parent() == fn && fn.Signature.Results().Len() < 2 {
+								found = false
 							}
 						}
 						if !found {
